@@ -327,6 +327,7 @@ func init() {
 		Rule: "random NCBI tables (distinct single-byte labels from printable ASCII without '#' and high bytes <255, '*' for gap; square and rectangular; integer, dyadic and shortest-decimal scores) rendered in random layouts " +
 			"(1..5 spaces/TABs, leading/trailing blanks, comment and empty lines anywhere, LF/CRLF, shuffled rows, optional final newline) and read with ReadNCBI; single-token corruptions of valid tables; " +
 			"random partial matrices with and without mirrored conflicts through Symmetrical; GoString re-parsed line by line and evaluated with go/parser+go/constant (thorough: also compiled through the genncbi route); " +
+			"readers unit: the calls run while reader goroutines read the protected memory, -race build reports any write to it (also one undone before returning); " +
 			"non-trivial = table with at least 2 cells / any corruption / matrix with at least 2 entries; distinct by hash of the text or of the sorted matrix",
 		Assumptions: []string{"labels are distinct single bytes other than '#', whitespace and 255; empty lines are exactly empty (not whitespace-only); scores are finite",
 			"corruptions touch rows only in ways the statement lists (row value count, non-numeric score, multi-character row or column label)"},
@@ -336,6 +337,7 @@ func init() {
 			{Name: "corrupt", TShards: 4, Run: c20Corrupt},
 			{Name: "symmetrical", TShards: 4, Run: c20Symmetrical},
 			{Name: "gostring", TShards: 4, Run: c20GoString},
+			{Name: "readers", Race: true, TShards: 2, Run: c20Readers},
 			{Name: "compiled", Thorough: true, Run: c20Compiled},
 		},
 	})
